@@ -438,14 +438,19 @@ PlayerRedeemChips 增購籌碼
   - 適用時機: 增購
 */
 func (te *tableEngine) PlayerRedeemChips(joinPlayer JoinPlayer) error {
+	// the bankroll is changed under the lock; the events are published after it is released, as before
+	te.lock.Lock()
+
 	// find player index in PlayerStates
 	playerIdx := te.table.FindPlayerIdx(joinPlayer.PlayerID)
 	if playerIdx == UnsetValue {
+		te.lock.Unlock()
 		return ErrTablePlayerNotFound
 	}
 
 	playerState := te.table.State.PlayerStates[playerIdx]
 	playerState.Bankroll += joinPlayer.RedeemChips
+	te.lock.Unlock()
 
 	te.emitEvent("PlayerRedeemChips", joinPlayer.PlayerID)
 	te.emitTablePlayerStateEvent(playerState)
